@@ -12,8 +12,36 @@ theorem filterMap_map_some {α β γ} (l : List α) (F : α → Option β) (r : 
     l.filterMap (fun a => (F a).map r) = (l.filterMap F).map r := by
   rw [List.map_filterMap]
 
+/-- Without `formula_terms` and `grid_mapping` attributes in the dataset there are no domain
+ancillaries and no coordinate references. -/
+theorem readFT_none {nc : NcFile} (h : nc.formulaTerms = []) (v : NcVar) (c : Entry) : readFT nc v c = none := by
+  unfold readFT
+  cases c.con.ncvar with
+  | none => rfl
+  | some cn => simp [h]
+
+theorem readB_empty {nc : NcFile} (h1 : nc.formulaTerms = []) (h2 : nc.gridMapping = []) (v : NcVar) (cons : List Entry) :
+    readB nc v cons = ⟨[], [], []⟩ := by
+  unfold readB
+  have : (cons.filter Entry.isCoordinate).filterMap (readFT nc v) = [] := by
+    apply List.filterMap_eq_nil_iff.mpr
+    intro c _
+    exact readFT_none h1 v c
+  simp [this, h2]
+
+theorem readVar_eq_A {nc : NcFile} (h1 : nc.formulaTerms = []) (h2 : nc.gridMapping = []) (v : NcVar) :
+    readVar nc v = readVarA nc v := by
+  unfold readVar
+  simp only [readB_empty h1 h2]
+  simp [readVarA]
+
+theorem varRefs_eq_A {nc : NcFile} (h1 : nc.formulaTerms = []) (h2 : nc.gridMapping = []) (v : NcVar) :
+    varRefs nc v = varRefsA nc v := by
+  unfold varRefs
+  simp [readB_empty h1 h2]
+
 section
-variable {o : Opts} {f : MField} {names : List (Slot × String)} (hwf : WFField f) (hg : GoodNames f (wfAx f) names)
+variable {o : Opts} {f : MField} {names : List (Slot × String)} (hwf : WFFieldB f) (hg : GoodNames f (wfAx f) names)
 include hwf hg
 
 omit hg in
@@ -122,15 +150,15 @@ theorem filterMap_some_map {α β} (l : List α) (r : α → β) : l.filterMap (
   | cons x xs ih => simp [ih]
 
 section
-variable {o : Opts} {f : MField} {names : List (Slot × String)} (hwf : WFField f) (hg : GoodNames f (wfAx f) names)
+variable {o : Opts} {f : MField} {names : List (Slot × String)} (hwf : WFFieldB f) (hg : GoodNames f (wfAx f) names)
 include hwf hg
 
 omit hwf hg in
 theorem coordTokens_eq : coordTokens o f (wfAx f) names =
     (wfAx f).roles.filterMap (roleToken o names) ++ (sortEntries (f.ofType .aux)).map (fun e => nameOf names (.con e.key)) := rfl
 
-theorem read_cons : (readVar (wfFile o f names) (dataVar o f (wfAx f) names)).cons = (readOrder f).map (rd o f names) := by
-  unfold readVar readOrder
+theorem read_cons : (readVarA (wfFile o f names) (dataVar o f (wfAx f) names)).cons = (readOrder f).map (rd o f names) := by
+  unfold readVarA readOrder
   simp only
   have hD := dataVar_dims (o := o) (names := names) hwf
   have h1 : (dataVar o f (wfAx f) names).dims.filterMap (dimEntry (wfFile o f names))
@@ -188,10 +216,10 @@ theorem dimAxis_data {ka : Key × MAxis} (hka : ka ∈ f.axes) (had : ka.1 ∈ f
   rw [pi_data hwf hak had hs, dim_axis hwf hg hka hs]
   rfl
 
-theorem read_axes : (readVar (wfFile o f names) (dataVar o f (wfAx f) names)).axes =
+theorem read_axes : (readVarA (wfFile o f names) (dataVar o f (wfAx f) names)).axes =
     f.dataAxes.map (fun a => dimAxis (wfFile o f names) (piOf f names a))
     ++ (scalarOrder f).map (fun e => (nameOf names (.con e.key), (⟨1, none, false⟩ : MAxis))) := by
-  unfold readVar scalarOrder
+  unfold readVarA scalarOrder
   simp only
   rw [dataVar_dims hwf, List.map_map]
   congr 1
